@@ -3,7 +3,7 @@
  *
  * commands (one case = one forked child, see vh.h):
  *   probe                  compile /c02/probe.c, print `probe <hash> ...` (structural dump hash), free the program
- *   src <hex>              append bytes to the main source  (-> /c02/t/x.c)
+ *   src <hex>              append bytes to the main source  (-> /c02/t/x.c);  newsrc  empties it again
  *   file <name> <hex>      append bytes to /c02/t/<name>
  *   compile                write the files, compile /c02/t/x.c, print the outcome:
  *                            result prog | result errors <n> | result thrown | result none | result inherit
@@ -82,7 +82,7 @@ static void c02_trace (const char *ev, long cursor, long size)
       return;
     }
   vh_out ("ev %s %ld %ld", ev, cursor, size);
-  if (!strcmp (ev, "lex.end"))
+  if (!strcmp (ev, "lex.end.if"))
     {
       for (int i = 0; i < nperm; i++)
         vh_out ("ident.end %s delta=%d local=%d", perm[i].ihe->name,
@@ -249,6 +249,11 @@ static int c02_cmd (char *line)
     }
   if (!strcmp (line, "src"))
     return 1;
+  if (!strcmp (line, "newsrc"))
+    {
+      src_len = 0;
+      return 1;
+    }
   if (!strncmp (line, "file ", 5))
     {
       char name[64];
